@@ -12,14 +12,32 @@ CFG = {
              "(over the C03 decoder models); representability floors (zero error for palette members; every grey "
              "level within 1 of a four-colour palette entry; every 8-bit value a BC4 endpoint); the oracle's "
              "quantisation step bounds = largest gap of adjacent decoded endpoint levels; the fully discrete "
-             "single-colour paths (BC7 compress_single_color channel-exact on all 256 values, BC4-type UNORM, 5:6:5 "
-             "corner colours) decode exactly. NOT modelled: the f32/Oklab endpoint search, refinement, BC7 "
-             "mode/partition/p-bit search, dithering. Those are explored: dds::encode on generated images, every "
+             "single-colour paths decode exactly: BC7 compress_single_color for ALL 2^32 colours as whole blocks "
+             "(mode-5 bit-field layout: the block is the sum of its ten fields and every positional read returns the "
+             "value written; then decode = 16 x (r,g,b,a) through Bc7.decodeBlock = Bc7Spec.decodeBlock of C03x), "
+             "BC4-type UNORM, BC3 alpha under any colour block (all 256 values), the SNORM closest branch (all 255 "
+             "levels, BC4S and BC5S; which inputs take it is decided in f32: of the 8-bit values only 0 and 255), BC2 "
+             "4-bit alpha of a constant-alpha block (17*round(a/17), within 8 of a, 255 stays 255), 5:6:5 corner "
+             "colours. BC7 opacity, decoder side for EVERY block: modes 0-3 decode alpha 255 at every pixel; in any "
+             "mode a pixel is opaque when both fully decoded endpoints of its subset are 255 in the channel the "
+             "rotation field routes to alpha; a stored alpha endpoint is 255 iff its raw field is all ones and (modes "
+             "6, 7) its p-bit is 1. BC7 opacity, encoder side, discrete control flow only (every f32 result is a "
+             "parameter): an opaque block is tried exactly in the allowed modes among 0-6, never mode 7, at every "
+             "preset; compress_rgba writes p-bits (1,1) for an opaque subset whatever the search returns; the "
+             "exactness guard of constant alpha in modes 4/5 yields endpoints that promote to exactly a. NOT proved "
+             "(float-dependent, explored by the opaque-lost oracle): that the alpha endpoint FIELDS of modes 4-7 are "
+             "all ones for opaque multi-colour blocks (Quantization::pick_best, channel_round, rotated modes 4/5). "
+             "NOT modelled: the f32/Oklab endpoint search, refinement, BC7 "
+             "partition/p-bit/endpoint search, dithering. Those are explored: dds::encode on generated images, every "
              "emitted block checked for Portable, decoded by dds::decode, by a Rust reference decoder written from "
              "the specification and by the Lean decoder models (driver), and the property's floors evaluated.",
     "note": "Trusted: Lean kernel + propext/Classical.choice/Quot.sound; Enc13.lean (hand-written model of the discrete "
-            "encoder logic) and the C03/C03x decoder models (BC7 decoder model: tied exhaustively, specification "
-            "proof partial, see C03x); the reading of 'within the endpoint quantisation step' on decoded 8-bit "
+            "encoder logic) and the C03/C03x decoder models (BC7 decoder model: tied exhaustively and proved equal to "
+            "the specification decoder for every block, see C03x); the control-flow transcriptions in "
+            "Proofs/Enc13Opaque.lean (BC7 modes tried, p-bit candidates, constant-alpha guard) and "
+            "Proofs/Enc13Single.lean (SNORM closest block, BC2 alpha bytes) are NOT reached by the differential tie "
+            "(compared once by script with emitted blocks, see notes/C13.md; their decoded effect is judged by the "
+            "oracle on every run); the reading of 'within the endpoint quantisation step' on decoded 8-bit "
             "values (bound = largest gap between adjacent decoded endpoint levels; two-colour blocks: the same "
             "step bound, 'exactly' applies to single-colour BC4/BC5/BC7/BC3-alpha blocks); generators and harness.",
     "profiles": ["release", "checked"],
